@@ -302,7 +302,7 @@ def run_part(case, ctx):
     if type(obj) is not type(api):
         ctx.violate(f"C10/part/type/{part['p']}", f"{type(obj).__name__} vs API {type(api).__name__}; spec={spec!r}")
         return
-    if max(slot_sizes(part)) <= 2:
+    if max(slot_sizes(part)) <= 2 and "shorthand+long" not in sp.features:
         okq, eq = call(lambda: (obj == api, api == obj))
         if not okq or eq != (True, True):
             ctx.violate(f"C10/part/neq/{part['p']}/{form}", f"from_spec({spec!r}) = {obj!r}\n != API {api!r}")
@@ -349,7 +349,7 @@ def run_path(case, ctx):
     if not ok:
         ctx.violate(f"C10/path/raise:{obj.type}", f"from_part_specs(*{specs!r}) raised {obj!r}")
         return
-    if all(max(slot_sizes(p)) <= 2 for p in pterm["parts"]):
+    if all(max(slot_sizes(p)) <= 2 for p in pterm["parts"]) and "shorthand+long" not in sp.features:
         okq, eq = call(lambda: (obj == api, api == obj))
         if not okq or eq != (True, True):
             ctx.violate("C10/path/neq", f"from_part_specs(*{specs!r}) = {obj!r}\n != API {api!r}")
@@ -388,7 +388,7 @@ def run_pathspec(case, ctx):
     if not isinstance(obj, DP.DataPath):
         ctx.violate("C10/pathspec/not-a-path", f"DataPath.from_spec({spec!r}) returned {obj!r}")
         return
-    if all(max(slot_sizes(p)) <= 2 for p in pterm["parts"]):
+    if all(max(slot_sizes(p)) <= 2 for p in pterm["parts"]) and "shorthand+long" not in sp.features:
         okq, eq = call(lambda: (obj == api, api == obj))
         if not okq or eq != (True, True):
             ctx.violate("C10/pathspec/neq", f"from_spec({spec!r}) = {obj!r}\n != API {api!r}")
@@ -521,14 +521,14 @@ def run_rule(case, ctx):
     if not ok:
         ctx.violate(f"C10/rule/raise:{obj.type}/doc{dshape}", f"Rule.from_spec({spec!r}) raised {obj!r}")
         return
-    check_rule(ctx, obj, api, rterm, spec, doc, "rule")
+    check_rule(ctx, obj, api, rterm, spec, doc, "rule", eq_ok="shorthand+long" not in sp.features)
     ctx.count(f"docshape:{dshape}")
     if rterm.get("cast"):
         ctx.count("rule:cast")
 
 
-def check_rule(ctx, obj, api, rterm, spec, doc, tag):
-    if all(max(slot_sizes(p)) <= 2 for p in rterm["path"]["parts"]):
+def check_rule(ctx, obj, api, rterm, spec, doc, tag, eq_ok=True):
+    if eq_ok and all(max(slot_sizes(p)) <= 2 for p in rterm["path"]["parts"]):
         okq, eq = call(lambda: (obj == api, api == obj))
         if not okq or eq != (True, True):
             ctx.violate(f"C10/{tag}/neq", f"from_spec({spec!r}) = {obj!r}\n != API {api!r}")
@@ -605,7 +605,7 @@ def run_yaml(case, ctx):
         ctx.violate("C10/yaml/rule-count", f"{len(obj.rules)} rules from {len(rules)} specs")
         return
     order = M.sort_rules(list(rules))
-    if all(max(slot_sizes(p)) <= 2 for r in rules for p in r["path"]["parts"]):
+    if all(max(slot_sizes(p)) <= 2 for r in rules for p in r["path"]["parts"]) and "shorthand+long" not in sp.features:
         okq, eq = call(lambda: obj == api)
         if not okq or eq is not True:
             ctx.violate("C10/yaml/neq", f"Schema.from_yaml != Schema built through the API; yaml:\n{text}")
